@@ -1,7 +1,7 @@
 PROP = {
     "id": "C24",
     "theorem_modules": ["Verif.Properties.C24"],
-    "min_theorems": 11,
+    "min_theorems": 17,
     "required_theorems": [
         "Verif.Properties.C24.commitsites_ok",
         "Verif.Properties.C24.cfg_from_source",
@@ -10,6 +10,9 @@ PROP = {
         "Verif.Properties.C24.writes_after_run_partial",
         "Verif.Properties.C24.failed_write_witness",
         "Verif.Properties.C24.exec_accepted",
+        "Verif.Properties.C24.commit_complete",
+        "Verif.Properties.C24.commit_complete_history",
+        "Verif.Properties.C24.store_exec_accepted",
     ],
     "gen": [["vtool", "gen-commitsites"]],
     "tool_files": ["tool_commitsites.go"],
@@ -23,7 +26,13 @@ PROP = {
     "level_text": "proof (protocol acceptor) + FX + CC. Lean theorems: for every host-visible trace accepted by the "
                   "executor-protocol automaton without a temporary commit, a script has no register write, a failed "
                   "execution has no register write, and every write follows the last program activity; the generative "
-                  "executor model configured from the extracted call-site table only produces accepted traces. FX: all "
+                  "executor model configured from the extracted call-site table only produces accepted traces. commit_complete "
+                  "(executor with a register map, Verif.Model.ExecStore: fresh read cache + dirty entries per execution, commit "
+                  "writes each dirty register once): for every ledger and program the ledger after a successful transaction's "
+                  "writes equals its in-memory state at the end; commit_complete_history: for every history of successful / "
+                  "failed transactions and scripts, every step reads exactly what it would read of one in-memory state that "
+                  "only successful transactions update; store_exec_accepted ties that executor to the protocol acceptor; "
+                  "stale_cache_witness shows the failure shape. FX: all "
                   "call sites of commitStorage / Storage.Commit / CommitStorageTemporarily / FastCommit / Ledger.SetValue "
                   "/ RecordContractUpdate.. (go/types) equal the pinned table, no commit in script_executor.go, every "
                   "executor commit directly follows the error check of the run. CC stream `exec`: generated histories of "
@@ -31,17 +40,21 @@ PROP = {
                   "assert, condition, index, overflow, force-nil, cast, type-mismatching load, computation limit cutting "
                   "at any point incl. the commit; contract add/update/remove; scripts mutating storage through "
                   "getAuthAccount) in both engines on the recording host; the trace is judged by the direct reading of "
-                  "the property and by the acceptor.",
+                  "the property and by the acceptor. Oracle stale-read-after-commit: every generated transaction and script "
+                  "logs what it reads of each channel of the state (storage paths of 0x1 / 0x2, stored resources, contract "
+                  "fields) at its start, every transaction again after its last change; the driver folds these over the "
+                  "history with the reference register map (Probe): a step must read what the last committed step had in "
+                  "memory at its end (about 2/3 of the histories make at least one such comparison).",
     "level_note": "The acceptor is a spec machine: the theorems are about traces, the tie to the Go executors is the FX "
                   "table plus the stream (assurance of the weaker half). Known finding write-via-temp-commit: "
                   "storage.used / storage.capacity / Account(payer:) flush the cache to the ledger mid-run (witness "
                   "theorems). UpdateAccountContractCode / RemoveAccountContractCode are host calls issued during the run "
-                  "and are not register writes in the sense of the property. 'Those writes hold everything a later "
-                  "transaction observes' (commit_complete) is exercised only through later steps of the same history "
-                  "reading what earlier ones wrote, not proved.",
+                  "and are not register writes in the sense of the property. commit_complete is proved on a register-map abstraction of runtime.Storage "
+                  "(registers as opaque values; the slab encoding of values is C44/C22's subject) and checked on the real runtime "
+                  "by the state probes; a hang verdict of the harness is re-confirmed by re-running the operation alone.",
     "assumptions": ["the host is transactional for non-register state (contract code, slab indices, uuids): the recording "
                     "host discards them for failed executions and scripts, as the FVM does",
                     "program activity = computation metering of kind Statement/Loop/FunctionInvocation, events, logs, slab allocation"],
-    "trusted_base": ["acceptor Verif.Model.Exec validated by stream exec", "fact extractor cmd/vtool/tool_commitsites.go (go/packages + go/types)",
+    "trusted_base": ["acceptor Verif.Model.Exec and register-map executor Verif.Model.ExecStore validated by stream exec", "fact extractor cmd/vtool/tool_commitsites.go (go/packages + go/types)",
                      "recording host harness/internal/host", "driver Drv/Exec.lean"],
 }
